@@ -246,13 +246,13 @@ func newRealStore(w *world, dir string) *realStore {
 	return &realStore{store: st, cdb: cdb}
 }
 
-func (r *realStore) GetBestBlock() (*types.Block, error)             { return r.cdb.GetBestBlock() }
+func (r *realStore) GetBestBlock() (*types.Block, error)                { return r.cdb.GetBestBlock() }
 func (r *realStore) GetBlockByNo(n types.BlockNo) (*types.Block, error) { return r.cdb.GetBlockByNo(n) }
-func (r *realStore) GetHashByNo(n types.BlockNo) ([]byte, error)       { return r.cdb.GetHashByNo(n) }
-func (r *realStore) GetBlock(h []byte) (*types.Block, error)           { return r.cdb.GetBlock(h) }
-func (r *realStore) GetGenesisInfo() *types.Genesis                    { return r.cdb.GetGenesisInfo() }
-func (r *realStore) Get(key []byte) []byte                             { return r.cdb.Get(key) }
-func (r *realStore) NewTx() db.Transaction                             { return r.cdb.NewTx() }
+func (r *realStore) GetHashByNo(n types.BlockNo) ([]byte, error)        { return r.cdb.GetHashByNo(n) }
+func (r *realStore) GetBlock(h []byte) (*types.Block, error)            { return r.cdb.GetBlock(h) }
+func (r *realStore) GetGenesisInfo() *types.Genesis                     { return r.cdb.GetGenesisInfo() }
+func (r *realStore) Get(key []byte) []byte                              { return r.cdb.Get(key) }
+func (r *realStore) NewTx() db.Transaction                              { return r.cdb.NewTx() }
 func (r *realStore) storeBlock(b *sblk) {
 	if err := r.cdb.VerifC08StoreBlock(b.b); err != nil {
 		panic(err)
@@ -325,8 +325,8 @@ func (l *lightStore) Get(key []byte) []byte {
 	}
 	return nil
 }
-func (l *lightStore) NewTx() db.Transaction        { return l.w.scratch.NewTx() }
-func (l *lightStore) storeBlock(b *sblk)           { l.known[b] = true }
+func (l *lightStore) NewTx() db.Transaction          { return l.w.scratch.NewTx() }
+func (l *lightStore) storeBlock(b *sblk)             { l.known[b] = true }
 func (l *lightStore) setCC(consensus.ChainConsensus) {}
 func (l *lightStore) save(cc consensus.ChainConsensus) {
 	c := &capture{}
@@ -383,27 +383,27 @@ type libRef struct {
 }
 
 type node struct {
-	w      *world
-	idx    int // producer index of this node (-1: observer)
-	store  chainStore
-	st     *dpos.Status
-	d      *dpos.DPoS
-	h      *dpos.VerifC08Handle
-	cm     *bp.Cluster
-	best   *sblk
-	main   []*sblk // harness reference of the main chain by number
-	known  map[*sblk]bool
-	rec    *recorder
-	maxLib libRef   // highest LIB this node ever reported
-	lastNo uint64   // LIB number reported after the previous complete arrival
-	fault  bool     // the history left the property's fault model (arbitrary Confirms, outsiders, injected gc): no property oracle
-	hist   []string // human-readable history of this node (replay)
-	sizeOv int      // producer-count override in force (0 = none)
-	events int
-	quiet  bool // no per-node history (exploration: the schedule log replays the case)
-	prpsdAtRaise int // number of proposed-LIB entries when the LIB last advanced
-	reorgSinceRaise bool // a permitted reorganisation happened since the LIB last advanced
-	taint  string // class of a tagged failure whose consequences later failures on this node are
+	w               *world
+	idx             int // producer index of this node (-1: observer)
+	store           chainStore
+	st              *dpos.Status
+	d               *dpos.DPoS
+	h               *dpos.VerifC08Handle
+	cm              *bp.Cluster
+	best            *sblk
+	main            []*sblk // harness reference of the main chain by number
+	known           map[*sblk]bool
+	rec             *recorder
+	maxLib          libRef   // highest LIB this node ever reported
+	lastNo          uint64   // LIB number reported after the previous complete arrival
+	fault           bool     // the history left the property's fault model (arbitrary Confirms, outsiders, injected gc): no property oracle
+	hist            []string // human-readable history of this node (replay)
+	sizeOv          int      // producer-count override in force (0 = none)
+	events          int
+	quiet           bool   // no per-node history (exploration: the schedule log replays the case)
+	prpsdAtRaise    int    // number of proposed-LIB entries when the LIB last advanced
+	reorgSinceRaise bool   // a permitted reorganisation happened since the LIB last advanced
+	taint           string // class of a tagged failure whose consequences later failures on this node are
 }
 
 func (n *node) selfID() string {
